@@ -202,7 +202,7 @@ func init() {
 	})
 	register(&explore.Prop{
 		ID: "C11", Level: levelMC, Explorer: "E1 + reachability over segment states",
-		Rule: "same reachable state space as C04; for each state the persisted file is checked: 44-byte footer, CRC-32/IEEE of all preceding bytes in the last 4 bytes, footer numDocs/version/chunkMode equal to the loaded segment's accessors, returned byte count, and Load(bytes).WriteTo reproduces the bytes exactly (memory- and file-backed, twice); " +
+		Rule: "same reachable state space as C04; for each state the persisted file is checked: 44-byte footer, CRC-32/IEEE of all preceding bytes in the last 4 bytes, footer numDocs/version/chunkMode equal to the loaded segment's accessors, returned byte count, Load(bytes).WriteTo reproduces the bytes exactly (memory- and file-backed, two load/persist rounds), and repeated WriteTo calls on one and the same segment object (built or loaded) write identical files; " +
 			"states/transitions as C04",
 		Assumptions: commonAssumptions, Budget: qBudget, Run: runC11,
 	})
@@ -344,6 +344,16 @@ func runC11(c *explore.Ctx) {
 					c.Violate(scope, idx, "C11/repersist/"+what, fmt.Sprintf("round %d (%s-backed): re-persisted file %s (len %d vs %d)", round, backing, what, len(b2), len(b)), st.desc)
 					return
 				}
+				// the same object persisted again must write the same file (a segment is immutable,
+				// however often it is persisted)
+				for again := 2; again <= 3; again++ {
+					b3, n3, err := persist(cur)
+					if err != nil || n3 != int64(len(b3)) || !bytes.Equal(b3, b) {
+						closeF()
+						c.Violate(scope, idx, "C11/repersist-same-object", fmt.Sprintf("round %d (%s-backed): WriteTo call #%d on the same segment: err=%v n=%d len=%d identical=%v", round, backing, again, err, n3, len(b3), bytes.Equal(b3, b)), st.desc)
+						return
+					}
+				}
 				if round == 1 {
 					cur, err = loadMem(b2)
 					if err != nil {
@@ -356,6 +366,13 @@ func runC11(c *explore.Ctx) {
 			closeF()
 		}
 		if st.orig != nil {
+			for again := 2; again <= 3; again++ {
+				b3, n3, err := persist(st.orig)
+				if err != nil || n3 != int64(len(b3)) || !bytes.Equal(b3, b) {
+					c.Violate(scope, idx, "C11/repersist-same-object/built", fmt.Sprintf("WriteTo call #%d on the same built segment: err=%v n=%d len=%d identical=%v", again, err, n3, len(b3), bytes.Equal(b3, b)), st.desc)
+					return
+				}
+			}
 			if m, ok := st.orig.(segMeta); ok {
 				if m.NumDocs() != fNumDocs || m.ChunkMode() != fChunk || m.Version() != fVer {
 					c.Violate(scope, idx, "C11/footer-fields-original", "in-memory segment accessors disagree with the footer it writes", st.desc)
